@@ -172,6 +172,15 @@ public:
   }
   // distinct leaf constants of a diagram
   void leaves(Node* n, std::vector<uint64_t>& out) { std::unordered_set<Node*> seen; std::unordered_set<uint64_t> vals; leavesRec(n, seen, vals, out); }
+  // number of distinct leaf constants, or limit + 1 if there are more (bounded walk)
+  size_t leafCountAtMost(Node* n, size_t limit) {
+    if (n->op == CONST) return 1;
+    std::unordered_set<Node*> seen; std::unordered_set<uint64_t> vals; std::vector<Node*> st{n};
+    while (!st.empty()) { Node* x = st.back(); st.pop_back(); if (!seen.insert(x).second) continue;
+      if (x->op == CONST) vals.insert(x->c); else if (x->op == ITE) { st.push_back(x->y); st.push_back(x->z); } else { vals.insert(0); vals.insert(1); }
+      if (vals.size() > limit || seen.size() > 64 * limit) return limit + 1; }
+    return vals.size();
+  }
   size_t ddSize(Node* n) { std::unordered_set<Node*> seen; std::vector<Node*> st{n}; while (!st.empty()) { Node* x = st.back(); st.pop_back(); if (!seen.insert(x).second) continue; if (x->op == ITE) { st.push_back(x->y); st.push_back(x->z); } } return seen.size(); }
 
   // ---- boolean / bitwise
@@ -310,6 +319,8 @@ public:
       if (isC(b) && a->op == SEL) return mkIte(a->x, mkCmp(EQ, a->y, b), mkCmp(EQ, a->z, b));
       if (isC(b) && a->op == ZEXT) { if (b->c > maskw(a->x->w)) return F; return mkCmp(EQ, a->x, mkConst(a->x->w, b->c)); }
       if (isC(b) && a->op == ADD && isC(a->y)) return mkCmp(EQ, a->x, mkConst(a->w, b->c - a->y->c));
+      if (isC(b) && a->op == CONCAT) return mkAnd(mkCmp(EQ, a->x, mkConst(a->x->w, b->c >> a->y->w)), mkCmp(EQ, a->y, mkConst(a->y->w, b->c)));
+      if (a->op == CONCAT && b->op == CONCAT && a->y->w == b->y->w) return mkAnd(mkCmp(EQ, a->x, b->x), mkCmp(EQ, a->y, b->y));
       if (a->id > b->id) std::swap(a, b);
     }
     if (op == ULT && isC(b) && b->c == 0) return F;
@@ -361,7 +372,9 @@ public:
   Node* mkTrunc(Node* a, unsigned w) { return mkExtract(a, 0, w); }
   Node* mkConcat(Node* hi, Node* lo) {
     unsigned w = hi->w + lo->w; assert(w <= 64);
-    if (hi->cleaf && lo->cleaf) return ddApply2(CONCAT, hi, lo);
+    // a diagram over the concatenation has up to |leaves(hi)| * |leaves(lo)| leaves: bytes that are chosen independently
+    // (a copied text buffer) stay a structured CONCAT node instead (EXTRACT and EQ see through it)
+    if (hi->cleaf && lo->cleaf && (isC(hi) || isC(lo) || leafCountAtMost(hi, 64) * leafCountAtMost(lo, 64) <= 1024)) return ddApply2(CONCAT, hi, lo);
     if (isC(hi) && hi->c == 0) return mkZext(lo, w);
     if (hi->op == EXTRACT && lo->op == EXTRACT && hi->x == lo->x && hi->c == lo->c + lo->w) return mkExtract(hi->x, lo->c, w);
     return intern(CONCAT, w, 0, hi, lo, nullptr);
